@@ -168,6 +168,37 @@ def run_one(arr, emb, common_sel, use_counts, map_kind, rb, in_minimal, acc, ext
     if out.tolist() != exp_out:
         acc.violation("roundtrip:values", case, "got %r expected %r (index=%r)" % (out.tolist(), exp_out, idx))
         return True
+    if rb == "default" and arr.size:
+        # (a) the array handed out belongs to the caller: edited in place, it must not show in the next conversion
+        try:
+            first = idx.to_array()
+            if first.flags.writeable:
+                first[...] = first.dtype.type(1) if first.dtype.kind in "iu" else 1
+            else:
+                acc.violation("to_array:read-only-result", case, "to_array() handed out a read-only array")
+            again = idx.to_array()
+            if again.tolist() != exp_list:
+                acc.violation("roundtrip:after-editing-an-earlier-result", case, "the caller overwrote the array an earlier to_array() returned; the next to_array() gives %r, expected %r" % (again.tolist(), exp_list))
+                return True
+        except Exception as e:  # noqa
+            acc.violation("to_array:raised", dict(case, step="second conversion"), repr(e))
+            return True
+        # (b) a read-back mapping that sends the stored common value to 0 (and 0, if present, elsewhere)
+        cm = int(idx.common)
+        if cm != 0 and -2 ** 62 < cm < 2 ** 62:
+            mz = {v: v for v in universe}
+            mz[cm] = 0
+            if 0 in mz:
+                mz[0] = 5
+            try:
+                outz = idx.to_array(mapping=dict(mz))
+                expz = numpy.vectorize(mz.get, otypes=[object])(numpy.asarray(expected, dtype=object)).tolist()
+                if outz.tolist() != expz:
+                    acc.violation("roundtrip:values", dict(case, readback_mapping="common->0"), "read back through %r: got %r expected %r (index=%r)" % (mz, outz.tolist(), expz, idx))
+                    return True
+            except Exception as e:  # noqa
+                acc.violation("to_array:raised", dict(case, readback_mapping="common->0"), "%r (index=%r)" % (e, idx))
+                return True
     if rb == "default" and not in_minimal and arr.size and arr.ndim <= 2 and all(-2 ** 63 <= int(x) < 2 ** 63 for x in numpy.asarray(expected).flat) and -2 ** 63 <= int(idx.common) < 2 ** 62:
         afterlife(idx, numpy.asarray(expected, dtype=object), acc, case)
     return True
